@@ -145,6 +145,15 @@ let dispatch (name : string) (a : string array) : string =
         | None -> raise (Py "Fuel"))
      | "Pump.power_required" -> let n = get_num a in let w = get_bool a in out_num (Pump.power_required fN p q n w)
      | _ -> out_num (Pump.power_available fN p q))
+  | "OpPoint.find" ->
+    let qimin = get_num a in let qlast = get_num a in let hsys = get_num a in let hpump = get_num a in
+    let tbl = get_pairs a in
+    let gap q = (match Stdlib.List.find_opt (fun (x, _) -> x = q) tbl with Some (_, f) -> f | None -> raise (Py "Unvisited")) in
+    let (o, vis) = OpPoint.find_operating_point fN gap qimin qlast hsys hpump in
+    (match o with
+     | OpPoint.Ok r -> "root " ^ out_num r
+     | OpPoint.OperatingPointError -> "OperatingPointError"
+     | OpPoint.ValueError -> "ValueError") ^ " " ^ out_list "visited" vis
   | "Fracs.create_fracs" ->
     let g = get_pairs a in
     let dp = get_num a in let nu = get_num a in let rhol = get_num a in let rhos = get_num a in
